@@ -64,6 +64,13 @@ def make_twin(comp):
         return type(comp)(**args)
 
 
+class _Outcome:
+    __slots__ = ("exc", "result")
+
+    def __init__(self, exc, result):
+        self.exc, self.result = exc, result
+
+
 class Hist:
     __slots__ = ("ins", "outs", "error")
 
@@ -136,6 +143,14 @@ class StreamMonitor:
         self.in_finalize.discard(id(comp))
         h = self.hist.pop(comp, None) or Hist()
         self.rec.count("finalize_calls")
+        self.judge(comp, h, c.exc, c.result)
+
+    def judge(self, comp, h, exc, result):
+        """one logical stream: the chunks handed to `comp` (h.ins), what came back (h.outs) and its finalize() outcome"""
+        from pydrobert.speech import config
+        from pydrobert.speech import compute as C
+
+        c = _Outcome(exc, result)
         if not scope_ok(comp):
             self.rec.count("out_of_scope_configuration")
             return
@@ -252,8 +267,20 @@ def tiny_configs(tier, seed):
     return cfgs
 
 
-def stream(comp, x, parts):
+def stream(comp, x, parts, reuse=False):
+    """reuse=True: the caller reads every chunk into one buffer of its own and refills it after each call
+    (what reading from a sound device or a file in blocks looks like); the computer must not depend on it"""
     pos = 0
+    if reuse and parts and max(parts) > 0:
+        buf = np.empty(max(parts), dtype=x.dtype)
+        junk = np.finfo(x.dtype).max / 4 if np.issubdtype(x.dtype, np.floating) else 7
+        for n in parts:
+            buf[:n] = x[pos:pos + n]
+            comp.compute_chunk(buf[:n])
+            buf[:] = junk
+            pos += n
+        comp.finalize()
+        return
     for n in parts:
         comp.compute_chunk(x[pos:pos + n])
         pos += n
@@ -323,16 +350,56 @@ def run_case(case, rec, mon=None):
                 dt = np.float32 if rng.random() < 0.15 else np.float64
                 x = gen.signal(rng, int(N), None, dt, views=True)
                 x.setflags(write=False)
-                for _ in range(case["n_comps"]):
+                for j in range(case["n_comps"]):
                     parts = gen.composition(rng, int(N))
                     try:
-                        stream(comp, x, parts)
+                        stream(comp, x, parts, reuse=(j % 3 == 1))
+                        if j % 3 == 1:
+                            rec.count("streams_through_a_refilled_caller_buffer")
                     except Exception:
                         try:
                             comp.finalize()
                         except Exception:
                             pass
             rec.sample({"kind": kind, "cfg": cfg, "lengths": [int(n) for n in pick], "last_composition": parts[:30]})
+    elif kind == "interleave":
+        # two computers built from equal configurations (one per channel, say) and fed alternately: each stream
+        # must come out as if it were alone.  The driver's calls are not observed by the hooks (they would file
+        # both streams under whatever object identity the factory returns); each logical stream is judged.
+        other = gen.build(cfg)
+        fl = comp.frame_length
+        for _ in range(case["n"]):
+            Na, Nb = int(rng.integers(fl, 4 * fl + 9)), int(rng.integers(fl // 2, 4 * fl + 9))
+            xs = [gen.signal(rng, Na, "noise"), gen.signal(rng, Nb, None)]
+            parts = [gen.composition(rng, Na), gen.composition(rng, Nb)]
+            comps, hs, pos, idx = [comp, other], [Hist(), Hist()], [0, 0], [0, 0]
+            fin = [None, None]
+            with monitor.quiet():
+                while idx[0] < len(parts[0]) or idx[1] < len(parts[1]):
+                    w = int(rng.integers(2))
+                    if idx[w] >= len(parts[w]):
+                        w = 1 - w
+                    n = parts[w][idx[w]]
+                    ch = np.array(xs[w][pos[w]:pos[w] + n])
+                    try:
+                        hs[w].outs.append(np.asarray(comps[w].compute_chunk(ch)))
+                        hs[w].ins.append(ch)
+                    except Exception as e:
+                        hs[w].error = e
+                    pos[w] += n
+                    idx[w] += 1
+                for w in (0, 1):
+                    try:
+                        fin[w] = (None, comps[w].finalize())
+                    except Exception as e:
+                        fin[w] = (e, None)
+            for w in (0, 1):
+                if hs[w].error is not None:
+                    mon.v("compute_chunk raised %r on one of two alternately fed computers of equal configuration" % (hs[w].error,), check="interleave_raise")
+                else:
+                    mon.judge(comps[w], hs[w], fin[w][0], fin[w][1])
+            rec.count("interleaved_stream_pairs")
+        rec.sample({"kind": kind, "cfg": cfg})
     elif kind == "fbf":
         fl, fs = comp.frame_length, comp.frame_shift
         for N in case["Ns"]:
@@ -382,6 +449,8 @@ def plan(tier, seed):
             cases.append({"kind": "boundary", "cfg": cfg, "n_lengths": 10 if q else 16, "n_comps": 3 if q else 5, "seed": seed, "idx": i})
             if i % 4 == 0:
                 cases.append({"kind": "fbf", "cfg": cfg, "Ns": [0, 1, 9, 40, 133], "seed": seed, "idx": i})
+            if i % 4 == 1:
+                cases.append({"kind": "interleave", "cfg": cfg, "n": 3, "seed": seed, "idx": i})
         specs.append({"cases": cases})
     for j, cfg in enumerate(gen.realistic_cfgs()):
         if q and cfg["name"] == "si":
